@@ -142,7 +142,8 @@ def sampleSummary (o : Ops Float32) (fix pre : Bool) (P : Params Float32) (r : F
             | some tot => if o.le (o.mul r tot) tot then [] else ["r"]
             | none => [])
          | .error _ => ["empty"]) ++
-        (if runGood o P r L1 && L1.all (fun t => !o.isNaN t.val) then [] else ["nan"])
+        (if runGood o P r L1 && L1.all (fun t => !o.isNaN t.val) then [] else ["nan"]) ++
+        (if massFinite o P L1 then [] else ["mass"])
       if flags.isEmpty then "ok" else "bad:" ++ joinWith "," flags
     let head := match res with
       | .ok t => s!"ok {t.id}"
